@@ -29,6 +29,12 @@ Scope decisions:
 """
 import logging
 import math
+import os
+
+# 16 worker processes x one BLAS thread pool per process = heavy oversubscription (measured: a 14 ms layout takes
+# 340 ms on a loaded machine); the checks only do small-array arithmetic. Must happen before numpy is first imported.
+for _v in ('OPENBLAS_NUM_THREADS', 'OMP_NUM_THREADS', 'MKL_NUM_THREADS'):
+    os.environ.setdefault(_v, '1')
 
 import networkx as nx
 import numpy as np
@@ -40,7 +46,7 @@ from gen import g5_graphs
 ID = 'C19'
 LEVEL = 'exploration'
 P_TARGETS = []
-BUDGET = {'quick': 33.0, 'thorough': 420.0}
+BUDGET = {'quick': 30.0, 'thorough': 420.0}
 CHUNK = 10
 BONDS = [0.5, 1, 1.54, 10]
 BOUNDS = {
@@ -50,7 +56,7 @@ BOUNDS = {
               'random_graphs': '80 trees with 6..12 nodes and 0..3 extra edges x 2 labelings',
               'molecules': 'fixed list + 11 E/Z molecules (x 6 labelings x 2 bond lengths), single fragments, homopolymers n=3, '
                            '40 seeded random assemblies (x 2 labelings)',
-              'bond_lengths': BONDS, 'max_nodes': 'about 80'},
+              'bond_lengths': BONDS, 'max_nodes': '53 (molecules), 30 (chains)', 'distinct_molecule_strings': 151},
     'thorough': {'atlas': 'all 142 connected graphs with 2..6 nodes x 4 bond lengths x 9 labelings x 3 RNG seeds; '
                           'all 853 connected graphs with 7 nodes x 4 bond lengths x 3 labelings',
                  'families': 'chains 2..12,16,20,30,50,80; stars 3..8,12,20 leaves; rings 3..12,16,20,30; 12 fused / cage graphs; '
@@ -58,7 +64,7 @@ BOUNDS = {
                  'random_graphs': '2000 trees with 6..12 nodes and 0..3 extra edges x 3 labelings',
                  'molecules': 'fixed list + 11 E/Z molecules (x 9 labelings x 4 bond lengths x 3 seeds), single fragments, ordered pairs, '
                               'homopolymers n=3,5, 600 seeded random assemblies (x 4 labelings x 2 bond lengths)',
-                 'bond_lengths': BONDS, 'max_nodes': 'about 110'},
+                 'bond_lengths': BONDS, 'max_nodes': '76 (molecules), 80 (chains)', 'distinct_molecule_strings': 817},
 }
 EXHAUSTIVE = {'quick': False, 'thorough': False}
 RULE = ('graphs: networkx atlas (every connected graph up to the stated size), chains, stars, rings, fused rings and cages, seeded random '
@@ -139,21 +145,26 @@ def cases(tier, seed):
 
     nlab = 7 if quick else 9
     nseed = 2 if quick else 3
-    # 1. atlas, small: full cross product
+    mols = list(cm.FIXED) + list(cm.STEREO)
+
+    def mol_block(strings):
+        for i, s in enumerate(strings):
+            labs = LABELS[:6] if quick else LABELS
+            bonds = [BONDS[i % 4], BONDS[(i + 2) % 4]] if quick else BONDS
+            for lab in labs:
+                for bond in bonds:
+                    for _ in range(1 if quick else 3):
+                        yield {'kind': 'mol', 'cgs': s, 'label': lab, 'bond': bond, 'rng': rng()}
+    # 1. E/Z molecules first: few, and the only inputs that reach check_and_fix_cis_trans
+    yield from mol_block(cm.STEREO)
+    # 2. atlas, small: full cross product
     for g in g5_graphs.connected_graphs(5 if quick else 6, 2):
         for bond in BONDS:
             for lab in LABELS[:nlab]:
                 for _ in range(nseed):
                     yield _graph_case('atlas', g, lab, bond, rng())
-    # 2. E/Z molecules and the hand-written list: the cis/trans repair and hydrogens
-    mols = list(cm.FIXED) + list(cm.STEREO)
-    for i, s in enumerate(cm.STEREO + cm.FIXED):
-        labs = LABELS[:6] if quick else LABELS
-        bonds = [BONDS[i % 4], BONDS[(i + 2) % 4]] if quick else BONDS
-        for lab in labs:
-            for bond in bonds:
-                for _ in range(1 if quick else 3):
-                    yield {'kind': 'mol', 'cgs': s, 'label': lab, 'bond': bond, 'rng': rng()}
+    # 2b. the hand-written molecules (hydrogens, rings of beads, shared atoms)
+    yield from mol_block(cm.FIXED)
     # 3. families
     for k, (fam, g) in enumerate(_families(tier)):
         for bond in BONDS:
